@@ -60,5 +60,42 @@ claim("C19",
       "Decides for the repository's own shared state that every field written after construction is accessed with its guard held (exclusively for writes), that no window into a guarded array escapes its critical section, that skip-list / list elements are dereferenced only under the owner's lock, and that post-construction writes in mutex-less types are atomic or listed as confined with a reason. Absence of all races in all schedules (dependencies, byte slices, channel-based happens-before) is the race detector's job and is not decided.",
       STATIC_NOTE, "DESIGN.md §3 C19")
 
-for pid in ["C03","C07","C10","C13","C14","C15","C16","C17"]:
-    na(pid, "static rules designed in DESIGN.md §3 but the check is not built yet; not claimed until it is")
+claim("C03",
+      "who-may-delete over call sites, marker-variable provenance at every recognition / write site, taint of client values towards version Puts, shared C02/C07/C13 rules",
+      "Decides the structural necessary conditions of snapshot reads: version records are written once with an allocated revision and deleted only by compaction code; writer and all readers agree on the one deletion-marker variable; a client value equal to the marker would have to be rejected (it is not: recorded finding); scan attempts start empty and partition borders stay contiguous. The scan algorithm itself (version selection, limit/more, order) is not decided.",
+      STATIC_NOTE, "DESIGN.md §3 C03")
+
+claim("C07",
+      "guard-dominance per deletion role of the scan worker (compact flag, revision <= R, index-record tests, equal-key / marker tests), intra-iteration order, skip-discipline path search, clamp derivation",
+      "Decides guard and discipline facts per deletion site of the compaction scan: sites run only when compacting, nothing above R is deleted, the index record only by compare-and-delete when tombstoned and <= R, a previous version only when superseded, the marker never before the version it hides, the skipped-key discipline on failures, the clamp of the compaction revision, and that every adapter's compare-and-delete compares. Which versions are removed for a given history and all fault positions are not decided.",
+      STATIC_NOTE, "DESIGN.md §3 C07")
+
+claim("C10",
+      "layout agreement by linear forms in the key length read off encoder and decoder SSA (constant propagation through package-level layout variables), byte-order and length tables",
+      "Decides that encoder and decoder agree on the four regions of an internal key (offsets as linear forms, substituted and compared), that the regions tile the buffer, that decoder length guards admit every encoded length, big-endian everywhere, separator <= '$', index key = version key at revision 0, and the 8/9-byte index-value table. Round-trip / ordering for all byte strings and PrefixEnd are value properties and are not decided.",
+      STATIC_NOTE, "DESIGN.md §3 C10")
+
+claim("C13",
+      "receiver-configuration copy check, producer path rules (one terminator, deferred close), index-isolation and merge-order rules, border contiguity / realignment rules, reset discipline, partition clamp",
+      "Decides the structure around the value-level border adjustment and merge: fork copies configuration, exactly one terminator with the scan's error and a deferred close, workers write only their own slot and merge happens in index order after Wait, batches name their revision, adjusted borders stay contiguous and every mid-version border is realigned to an index key, each scan attempt resets its receiver, engine partitions are clamped. Results for all partitionings are not decided.",
+      STATIC_NOTE, "DESIGN.md §3 C13")
+
+claim("C14",
+      "who-may-write the election key, provenance of the CAS expectation through accessor helpers, who-may-call the observer, nil-return dominance, shared adapter rules",
+      "Decides that the lock record is written only by put-if-absent / CAS, that the CAS expects exactly the last observed bytes, that those are refreshed only by the lock's Get (or with the bytes just created after a nil commit), that Create/Update report success only after a nil commit, and (C11) that engines evaluate conditions atomically with the write. Engine atomicity itself is assumed.",
+      STATIC_NOTE, "DESIGN.md §3 C14")
+
+claim("C15",
+      "dominance in the leader-start callback, value provenance through Describe()/ParseUint, who-may-write the timestamp field, shared C02 counter rules",
+      "Decides only the wiring without which the property fails on every engine: the callback seeds the revision from the lock's description before raising the leader flag and before the started-leading hook; the description prints the engine timestamp, which is fed only by GetTimestampOracle after successful lock writes; Commit raises the dealt counter monotonically; nobody else resets the counters. Whether the engine clock exceeds all issued revisions is a run-time relation and is not decided.",
+      STATIC_NOTE, "DESIGN.md §3 C15")
+
+claim("C16",
+      "closed-dispatch dominance in the Txn handler, recogniser completeness by path facts over message access paths (union-find of equated keys, helper summaries), response-shape checks on composite literals, reachability for unsupported RPCs, fresh-read provenance of failure answers",
+      "Decides the classification layer: every backend call of the Txn handler is guarded by exactly one pure recogniser and unrecognised shapes are rejected; each recogniser equates all accepted keys, tests RangeEnds empty and the compare's target/result; the shim builds one response op of the prescribed kind per shape; unsupported RPCs reach no write; failure answers carry the re-read key-value. Agreement of contents with an etcd model for all histories is not decided.",
+      STATIC_NOTE, "DESIGN.md §3 C16")
+
+claim("C17",
+      "predicate-shape and provenance check at both classification sites (anchored HasPrefix on a prefix from one shared constructor ending in '/'), guard dominance for age and primitive, call-graph non-reachability",
+      "Decides that both the create path and the expiry scan classify Event keys by an anchored prefix test derived from the configured prefix through one constructor whose result ends with '/', that expiry deletes are guarded by revision <= timeout revision produced only from marks older than the TTL, that the index goes by compare-and-delete, that the scanner never emits events, and the native-TTL switch. Wall-clock ageing and native-TTL engines are not decided.",
+      STATIC_NOTE, "DESIGN.md §3 C17")
